@@ -25,6 +25,15 @@ def build(ck, sr, cfgs, seeds):
             if not trace:
                 continue
             n = len(trace)
+            if "smaxed" in cfg:
+                # a TLS 1.3 server rejecting 0-RTT tolerates undecryptable records only up to its configured limit; beyond it the
+                # session must die like after any other decryption failure
+                pump = "".join(" ; step c2s 9 ; step s2c 9" for _ in range(4))
+                for sizes in ((600,), (600, 300), (600, 600), (999, 1), (999, 1, 1), (1000, 600), (400, 400, 400), (1,) * 6):
+                    i = len(scripts)
+                    scripts.append(sesslib.newcmd(cfg, seed) + "".join(" ; app c %s" % ("%02x" % (0x41 + j) * sz) for j, sz in enumerate(sizes)) + pump
+                                   + " ; app c 6c61746572 ; step c2s 9 ; app s 7265706c79 ; step s2c 9 ; st")
+                    meta.append((name, 0, "s", "earlydata:" + "+".join(str(x) for x in sizes)))
             # points of a session's life: every handshake prefix, plus established with data flowing
             for k in range(n + 1):
                 base = prefix_script(cfg, seed, trace, k)
@@ -41,7 +50,7 @@ def build(ck, sr, cfgs, seeds):
                             scripts.append(base + " ; inj %s %s" % (side, raw.hex()) + cont + " ; st")
                             inj_desc[i] = [d] + cdesc; meta.append((name, k, side, kn))
                 # corrupt the next genuine record (first payload byte and last byte), then offer the original again
-                if k < n:
+                if k < n and "psk=1" not in cfg:   # (a server skipping rejected 0-RTT also skips a corrupted record and accepts its original later: by design)
                     d0 = trace[k]; to = "s" if d0 == "c2s" else "c"
                     for off in (5, -1):
                         i = len(scripts)
@@ -102,7 +111,7 @@ def run(ck):
     ck.regen([("consts.sh",), ("gen_defines.py",)])
     ck.coq_properties()
     sr = sesslib.SessRun(ck)
-    cfgs = ["tls12", "tls13", "tls12_cbc", "tls13_cauth"] if ck.tier == "quick" else list(CONFIGS)
+    cfgs = ["tls12", "tls13", "tls12_cbc", "tls13_cauth", "tls12_resumed_id", "tls13_extpsk"] if ck.tier == "quick" else list(CONFIGS)
     seeds = [ck.seed] if ck.tier == "quick" else [ck.seed, ck.seed + 1]
     scripts, inj_desc, meta = build(ck, sr, cfgs, seeds)
     scripts = fix_xor_last(scripts, sr)
@@ -135,6 +144,22 @@ def run(ck):
                                   {"harness": "h_sess", "script": scripts[si], "observed": out[-900:], "scenario": meta[si]})
             else:
                 ck.count("illegal_message_killed_session")
+        if meta[si][3].startswith("earlydata:") and "psk=1" in scripts[si]:
+            sizes = [int(x) for x in meta[si][3].split(":")[1].split("+")]
+            limit = int(sesslib.re.search(r"smaxed=(\d+)", scripts[si]).group(1))
+            allsteps = [st for sg in out.split(" | ") for st in parse_steps(sg)]
+            srv_done = any(st.side == "s" and st.post and st.post["done"] for st in allsteps)
+            srv_data = [a for st in allsteps if st.side == "s" for a in st.appdata]
+            if sum(sizes) > limit and (srv_done or srv_data):
+                ck.spec_violation("early-data-skip-over-limit:%d>%d" % (sum(sizes), limit),
+                                  "a TLS 1.3 server rejecting early data skipped %d bytes of undecryptable records (limit %d) and the session survived" % (sum(sizes), limit),
+                                  {"harness": "h_sess", "script": scripts[si][:300] + " ...", "observed": out[-700:], "scenario": meta[si]})
+            elif sum(sizes) <= limit and not srv_done:
+                ck.spec_violation("early-data-skip-under-limit-failed:%d<=%d" % (sum(sizes), limit),
+                                  "a TLS 1.3 server rejecting early data did not complete although only %d bytes (limit %d) had to be skipped" % (sum(sizes), limit),
+                                  {"harness": "h_sess", "script": scripts[si][:300] + " ...", "observed": out[-700:], "scenario": meta[si]})
+            else:
+                ck.count("early_data_limit_respected")
         dead = {"c": None, "s": None}
         segs = out.split(" | ")
         cmds = scripts[si].split(" ; ")
